@@ -5,6 +5,7 @@ import scen_common
 PID = "C04"
 PROP_V = ["Props/Properties_C04.v"]
 GEN_MODULES = ["Consts", "Sites"]
+FLOW_FILES = ['cv.c', 'sem_wait.c']
 REPLAY_HINT = "VRT_SEED=<seed> VRT_MODE=<m> _work/h/cv_mix (or waitn_mix)"
 PARTIAL = ["C04_no_stuck is proved as C04_no_stuck_partial (in a quiescent world a thread asleep in nsync_cv_wait is still on the cv queue, or its "
            "record was taken by a waker that has finished with it while its semaphore is empty) + C04_waker_moves; the full statement "
